@@ -92,12 +92,15 @@ type Config struct {
 	// loads of the same sequence must not re-derive them from bodies that inlining has changed
 	newNames   map[string]bool
 	aliasNames map[string]string
+	coreNames  map[string]string // new helper -> the pinned function that ends in a call of it
 }
 
 // Decimal field indexes (re-derived from the struct at load time).
 type FieldIdx struct{ Mant, Exp, Prec, Mode, Acc, Form, Neg int }
 
 type Model struct {
+	// Memo: results rules compute once per model and share (keyed by a rule-chosen name)
+	Memo       sync.Map
 	siteFilter *ssa.BasicBlock // set while rootsOfAt runs (load time only)
 	accessors  map[*ssa.Function]int
 	Cfg        Config
@@ -156,7 +159,101 @@ func Load(cfg Config) *Model {
 			cfg.newNames[raw] = true
 		}
 	}
-	m.Cfg.newNames, m.Cfg.aliasNames = cfg.newNames, cfg.aliasNames
+	// a new helper that a function of the pinned tree now hands its work to (return x.digitAt(j, i)
+	// at the end of digit) is that function's core: it stays a function (it is not inlined back),
+	// and the tables that model the pinned function model it the same way
+	cfg.coreNames = map[string]string{}
+	for _, fn := range m.Funcs {
+		if fn.Parent() != nil || fn.Object() == nil || len(fn.Blocks) == 0 {
+			continue
+		}
+		raw := m.rawName(fn)
+		if cfg.newNames[raw] {
+			continue
+		}
+		for _, b := range fn.Blocks {
+			r, ok := b.Instrs[len(b.Instrs)-1].(*ssa.Return)
+			if !ok || len(r.Results) != 1 {
+				continue
+			}
+			c, ok := r.Results[0].(*ssa.Call)
+			if !ok {
+				continue
+			}
+			cal := c.Call.StaticCallee()
+			if cal == nil || cal.Parent() != nil || cal.Object() == nil {
+				continue
+			}
+			if cr := m.rawName(cal); cfg.newNames[cr] && types.Identical(cal.Signature.Results(), fn.Signature.Results()) {
+				cfg.coreNames[cr] = raw
+			}
+		}
+	}
+	// … provided somebody else calls it too (round calling digitAt directly): a helper that only
+	// its delegators call (Add, Sub and Mul each `return c.binary(op, …)`) is inlined back as usual
+	delegator := map[string]map[string]bool{} // core -> its delegators
+	for _, fn := range m.Funcs {
+		if fn.Parent() != nil || fn.Object() == nil {
+			continue
+		}
+		raw := m.rawName(fn)
+		for _, b := range fn.Blocks {
+			if r, ok := b.Instrs[len(b.Instrs)-1].(*ssa.Return); ok && len(r.Results) == 1 {
+				if c, ok := r.Results[0].(*ssa.Call); ok {
+					if cal := c.Call.StaticCallee(); cal != nil && cal.Object() != nil {
+						if cr := m.rawName(cal); cfg.coreNames[cr] != "" {
+							if delegator[cr] == nil {
+								delegator[cr] = map[string]bool{}
+							}
+							delegator[cr][raw] = true
+						}
+					}
+				}
+			}
+		}
+	}
+	otherCaller := map[string]bool{}
+	for _, fn := range m.Funcs {
+		if fn.Object() == nil && fn.Parent() == nil {
+			continue
+		}
+		raw := ""
+		if fn.Parent() == nil {
+			raw = m.rawName(fn)
+		}
+		for _, b := range fn.Blocks {
+			for _, in := range b.Instrs {
+				ci, ok := in.(ssa.CallInstruction)
+				if !ok {
+					continue
+				}
+				cal := ci.Common().StaticCallee()
+				if cal == nil || cal.Object() == nil || cal.Parent() != nil {
+					continue
+				}
+				cr := m.rawName(cal)
+				if cfg.coreNames[cr] != "" && !delegator[cr][raw] && cr != raw {
+					otherCaller[cr] = true
+				}
+			}
+		}
+	}
+	byRaw := map[string]*ssa.Function{}
+	for _, fn := range m.Funcs {
+		if fn.Parent() == nil && fn.Object() != nil {
+			byRaw[m.rawName(fn)] = fn
+		}
+	}
+	for cr := range cfg.coreNames {
+		// … and only a helper that writes nothing (digitAt, stickyAt): one that has effects
+		// (decToNatScratch, which divides its operand in place) is better seen inside its callers
+		if !otherCaller[cr] || !writesNothing(byRaw[cr], 3) {
+			delete(cfg.coreNames, cr)
+			continue
+		}
+		delete(cfg.newNames, cr)
+	}
+	m.Cfg.newNames, m.Cfg.aliasNames, m.Cfg.coreNames = cfg.newNames, cfg.aliasNames, cfg.coreNames
 	for round := 0; round < 24 && len(cfg.newNames) > 0; round++ {
 		cur := m
 		isNew := func(f *types.Func) bool {
@@ -208,6 +305,12 @@ func Load(cfg Config) *Model {
 	if d := os.Getenv("DECVERIF_NORMDUMP"); d != "" {
 		for k, v := range cfg.norm {
 			os.WriteFile(d+"/"+filepath.Base(k), v, 0o644)
+		}
+		for _, n := range notes {
+			fmt.Fprintln(os.Stderr, "normalize:", n)
+		}
+		for n := range cfg.newNames {
+			fmt.Fprintln(os.Stderr, "normalize: new function", n)
 		}
 	}
 	if len(cfg.norm) > 0 {
@@ -685,7 +788,7 @@ func (m *Model) LoadOfDecField(v ssa.Value) (*ssa.FieldAddr, bool) {
 	if !ok {
 		return nil, false
 	}
-	cal := c.Call.StaticCallee()
+	cal := Unthunk(c.Call.StaticCallee())
 	if cal == nil || len(c.Call.Args) != 1 {
 		return nil, false
 	}
@@ -1152,7 +1255,7 @@ func (m *Model) refOf(v ssa.Value, seen map[ssa.Value]bool) Ref {
 		}
 		r.Unknown = true
 	case *ssa.Call:
-		cal := v.Call.StaticCallee()
+		cal := Unthunk(v.Call.StaticCallee())
 		if cal != nil && m.retSelf[cal] && len(v.Call.Args) > 0 {
 			return m.refOf(v.Call.Args[0], seen)
 		}
@@ -1161,11 +1264,29 @@ func (m *Model) refOf(v ssa.Value, seen map[ssa.Value]bool) Ref {
 			r.Allocs = []ssa.Value{v}
 			return r
 		}
+		// a call through a local function value all of whose possible targets return their
+		// receiver (op := z.Mul; if … { op = z.Quo }; z = op(z, y))
+		if cal == nil {
+			if ts := DynTargets(&v.Call); ts != nil {
+				all := true
+				for _, t := range ts {
+					if !m.retSelf[t.Fn] || len(t.Args) == 0 {
+						all = false
+					}
+				}
+				if all {
+					for _, t := range ts {
+						r.merge(m.refOf(t.Args[0], seen))
+					}
+					return r
+				}
+			}
+		}
 		r.Unknown = true
 	case *ssa.Extract:
 		// (d, b, err) := z.Parse(...): result 0 of a returns-self call is the receiver or nil
 		if call, ok := v.Tuple.(*ssa.Call); ok && v.Index == 0 {
-			cal := call.Call.StaticCallee()
+			cal := Unthunk(call.Call.StaticCallee())
 			if cal != nil && m.retSelf[cal] && len(call.Call.Args) > 0 {
 				r = m.refOf(call.Call.Args[0], seen)
 				r.Nil = true
@@ -1262,7 +1383,103 @@ func Callee(in ssa.Instruction) (*ssa.Function, *ssa.CallCommon) {
 	if !ok {
 		return nil, nil
 	}
-	return ci.Common().StaticCallee(), ci.Common()
+	return Unthunk(ci.Common().StaticCallee()), ci.Common()
+}
+
+// Unthunk resolves the wrapper go/ssa makes for a method expression ((*T).M used as a function
+// value) to the method: the wrapper's only block calls M with the wrapper's parameters in order,
+// so the arguments of a call of the wrapper are the arguments of M.
+func Unthunk(fn *ssa.Function) *ssa.Function {
+	if fn == nil || fn.Synthetic == "" || !strings.HasSuffix(fn.Name(), "$thunk") || len(fn.Blocks) != 1 {
+		return fn
+	}
+	for _, in := range fn.Blocks[0].Instrs {
+		c, ok := in.(*ssa.Call)
+		if !ok {
+			continue
+		}
+		t := Unthunk(c.Call.StaticCallee())
+		if t == nil || len(c.Call.Args) != len(fn.Params) {
+			return fn
+		}
+		for i, a := range c.Call.Args {
+			if a != ssa.Value(fn.Params[i]) {
+				return fn
+			}
+		}
+		return t
+	}
+	return fn
+}
+
+// DynTarget is one function a call through a function value may reach, with the arguments it
+// receives there (a bound method value z.M gets the bound receiver in front).
+type DynTarget struct {
+	Fn   *ssa.Function
+	Args []ssa.Value
+}
+
+// DynTargets resolves a call of a local function value that is a method value (z.Mul), a method
+// expression or a plain function, or a join (φ) of those, to the functions it may reach. nil when
+// the call is static, a builtin, an interface call, or the value comes from anywhere else.
+func DynTargets(c *ssa.CallCommon) []DynTarget {
+	if c.IsInvoke() || c.StaticCallee() != nil {
+		return nil
+	}
+	if _, ok := c.Value.(*ssa.Builtin); ok {
+		return nil
+	}
+	var out []DynTarget
+	seen := map[ssa.Value]bool{}
+	var walk func(v ssa.Value) bool
+	walk = func(v ssa.Value) bool {
+		if seen[v] {
+			return true
+		}
+		seen[v] = true
+		switch x := v.(type) {
+		case *ssa.Phi:
+			for _, e := range x.Edges {
+				if !walk(e) {
+					return false
+				}
+			}
+			return true
+		case *ssa.ChangeType:
+			return walk(x.X)
+		case *ssa.Function:
+			out = append(out, DynTarget{Unthunk(x), c.Args})
+			return true
+		case *ssa.MakeClosure:
+			fn, ok := x.Fn.(*ssa.Function)
+			if !ok || !strings.HasSuffix(fn.Name(), "$bound") || len(x.Bindings) != 1 || len(fn.Blocks) != 1 || len(fn.FreeVars) != 1 {
+				return false
+			}
+			for _, in := range fn.Blocks[0].Instrs {
+				cc, ok := in.(*ssa.Call)
+				if !ok {
+					continue
+				}
+				t := cc.Call.StaticCallee()
+				if t == nil || len(cc.Call.Args) != len(fn.Params)+1 || cc.Call.Args[0] != ssa.Value(fn.FreeVars[0]) {
+					return false
+				}
+				for i, p := range fn.Params {
+					if cc.Call.Args[i+1] != ssa.Value(p) {
+						return false
+					}
+				}
+				out = append(out, DynTarget{t, append([]ssa.Value{x.Bindings[0]}, c.Args...)})
+				return true
+			}
+			return false
+		}
+		return false
+	}
+	if !walk(c.Value) || len(out) == 0 {
+		return nil
+	}
+	return out
 }
 
 // BuiltinName returns the name of the builtin being called, if any.
@@ -1316,4 +1533,54 @@ func mergeOverlay(a, b map[string][]byte) map[string][]byte {
 		out[k] = v
 	}
 	return out
+}
+
+// CoreOf: the name of the pinned function that hands its work to the new helper fn ("" if none).
+func (m *Model) CoreOf(fn *ssa.Function) string {
+	if fn == nil || m.Cfg.coreNames == nil {
+		return ""
+	}
+	if p, ok := m.Cfg.coreNames[m.rawName(fn)]; ok {
+		return p
+	}
+	return ""
+}
+
+// writesNothing: fn stores nothing and calls only functions of its own package that store nothing
+// either (and builtins that do not write).
+func writesNothing(fn *ssa.Function, depth int) bool {
+	if fn == nil || depth == 0 || len(fn.Blocks) == 0 {
+		return false
+	}
+	for _, b := range fn.Blocks {
+		for _, in := range b.Instrs {
+			switch x := in.(type) {
+			case *ssa.Store, *ssa.MapUpdate, *ssa.Send, *ssa.Go, *ssa.Defer:
+				return false
+			case *ssa.Call:
+				if bi, ok := x.Call.Value.(*ssa.Builtin); ok {
+					switch bi.Name() {
+					case "len", "cap", "min", "max":
+						continue
+					}
+					return false
+				}
+				cal := x.Call.StaticCallee()
+				if cal == nil {
+					return false
+				}
+				if cal.Pkg == fn.Pkg {
+					if !writesNothing(cal, depth-1) {
+						return false
+					}
+					continue
+				}
+				if cal.Pkg != nil && cal.Pkg.Pkg.Path() == "math/bits" {
+					continue
+				}
+				return false
+			}
+		}
+	}
+	return true
 }
